@@ -124,6 +124,8 @@ pub fn run(stdout: &mut StandardStream, hy_opt: &HyeongOption) -> Result<(), Err
                 running.store(false, Ordering::SeqCst);
 
                 if input == *"" {
+                    #[cfg(hyeong_verif)]
+                    crate::util::verif::exit("debug_eof", 0);
                     process::exit(0);
                 }
 
@@ -231,6 +233,8 @@ pub fn run(stdout: &mut StandardStream, hy_opt: &HyeongOption) -> Result<(), Err
                     }
 
                     "exit" => {
+                        #[cfg(hyeong_verif)]
+                        crate::util::verif::exit("debug_exit", 0);
                         process::exit(0);
                     }
 
